@@ -300,6 +300,13 @@ class Run:
                 cb.set_root_key_hash(key.get("slot", 0), cert.public_key_hash())
                 cb.add_certificate(cert)
                 pk = os.path.join(kdir, "rsa", f"selfsign_privatekey_rsa{key['bits']}.pem")
+            elif key["kind"] == "chain3":
+                # root CA -> intermediate CA -> leaf; the image is signed with the leaf's key
+                chain = [S.Certificate.load(os.path.join(kdir, "chain", n)) for n in ("root_cert_0_ca_v3.der.crt", "chain_cert_0_v3.der.crt", "chain_cert_1_v3.der.crt")][: key.get("depth", 3)]
+                cb.set_root_key_hash(key.get("slot", 0), chain[0].public_key_hash())
+                for c in chain:
+                    cb.add_certificate(c)
+                pk = os.path.join(kdir, "chain", "chain_cert_1_pkey_rsa4096.pem")
             else:
                 certs = [S.Certificate.load(os.path.join(kdir, f"root_k{i}_signed_cert0_noca.der.cert")) for i in range(4)]
                 for i in range(key["nroots"]):
@@ -664,7 +671,7 @@ def gen_plan(family: str, i: int, rng: random.Random, tier: str) -> dict:
 
     version = rng.choice(["2.0", "2.1", "2.1"])
     signed = rng.random() < 0.6 if version == "2.0" else True
-    key = rng.choice([{"kind": "self", "bits": 2048, "slot": rng.randrange(4)}, {"kind": "self", "bits": 4096, "slot": 0}, {"kind": "k4", "nroots": rng.randint(1, 4)}])
+    key = rng.choice([{"kind": "self", "bits": 2048, "slot": rng.randrange(4)}, {"kind": "self", "bits": 4096, "slot": 0}, {"kind": "k4", "nroots": rng.randint(1, 4)}, {"kind": "k4", "nroots": rng.randint(2, 4)}, {"kind": "chain3", "bits": 4096, "depth": 3, "slot": rng.randrange(4)}])
     if key["kind"] == "k4":
         key["used"] = rng.randrange(key["nroots"])
     nsec = rng.choice([1, 1, 1, 2, 2, 3, 4])
